@@ -114,7 +114,7 @@ func run(s hist.Script, v *vt.V) {
 
 func cfg() hist.Config {
 	c := hist.Config{MaxOps: 40, ValidRepos: 3, InvalidRepos: true, Uploads: true, Mismatch: true, BadManifests: true,
-		Retype: true, Deletes: true, Lists: true, UnknownResumeID: true, MaxSmall: 40, BlobTypes: true, KeepCommitted: true, Attach: true}
+		Retype: true, Deletes: true, Lists: true, UnknownResumeID: true, MaxSmall: 40, BlobTypes: true, KeepCommitted: true, Attach: true, DeepChain: true}
 	if vt.Thorough() {
 		c.BigLens = []int{8191, 8192, 8193}
 		c.MaxOps = 60
